@@ -304,7 +304,7 @@ func buildWire(o *caseOp, R [][]byte, Y func(i int) []byte, jr *vh.Rand) ([]byte
 		}
 		a := strings.Split(f[1:], ".")
 		var ri []byte
-		if strings.IndexByte("otvmxky", f[0]) >= 0 {
+		if strings.IndexByte("otvmxkys", f[0]) >= 0 {
 			i, ok := num(a[0])
 			if !ok || i >= len(R) {
 				return nil, false
@@ -360,6 +360,16 @@ func buildWire(o *caseOp, R [][]byte, Y func(i int) []byte, jr *vh.Rand) ([]byte
 			}
 			n := bl - d
 			ri[3], ri[4] = byte(n>>8), byte(n)
+			w = append(w, ri...)
+		case f[0] == 's' && len(a) == 2:
+			l, ok := num(a[1])
+			if !ok {
+				return nil, false
+			}
+			if bl := len(ri) - 5; l > bl-1 {
+				l = bl - 1
+			}
+			ri[3], ri[4] = byte(l>>8), byte(l)
 			w = append(w, ri...)
 		case f[0] == 'j' && len(a) == 3:
 			t, ok1 := h1(a[0])
@@ -591,7 +601,38 @@ func genPos(r *vh.Rand) int {
 	}
 }
 
+// criticalLens lists the body lengths around the minimum a record of the suite family can have
+// (decrypt's key-independent length checks): explicit nonce / IV, tag or MAC, CBC block alignment.
+func criticalLens(c combo) []int {
+	switch {
+	case c.suite == 0xcca8 || c.suite == 0xcca9: // ChaCha20-Poly1305: no explicit nonce, 16-byte tag
+		return []int{0, 1, 15, 16, 17}
+	case isAEAD(c.suite): // AES-GCM: 8-byte explicit nonce, 16-byte tag
+		return []int{0, 1, 7, 8, 9, 23, 24, 25}
+	case c.suite == 0xc011 || c.suite == 0xc007 || c.suite == 0x0005: // RC4-SHA: 20-byte MAC
+		return []int{0, 1, 19, 20, 21}
+	}
+	bs, mac := 16, 20
+	if c.suite == 0xc012 || c.suite == 0x000a {
+		bs = 8
+	}
+	if c.suite == 0xe019 {
+		mac = 32
+	}
+	eiv := 0
+	if c.vers >= 0x0302 {
+		eiv = bs
+	}
+	min := eiv + mac + 1
+	min += (bs - min%bs) % bs // roundUp(explicitIV+macSize+1, blockSize)
+	return []int{0, 1, bs - 1, bs, bs + 1, eiv + mac, eiv + mac + 1, min - bs, min - 1, min, min + 1, min + bs}
+}
+
 func tamperFrame(r *vh.Rand, c combo, sent []rec, i int) string {
+	if r.Chance(1, 5) { // shrink the record to a critical length
+		cl := criticalLens(c)
+		return fmt.Sprintf("s%d.%d", i, cl[r.Intn(len(cl))])
+	}
 	maxJunk := 16000
 	switch r.Intn(7) {
 	case 0:
@@ -625,6 +666,13 @@ func junkFrame(r *vh.Rand, c combo) string {
 		v = otherVers(r, c.vers)
 	}
 	var n int
+	if r.Chance(2, 5) { // around the family's minimum record size, mostly as application data
+		cl := criticalLens(c)
+		if r.Chance(2, 3) {
+			t = 23
+		}
+		return fmt.Sprintf("j%02x.%s.%d", t, hex4(v), cl[r.Intn(len(cl))])
+	}
 	switch r.Intn(8) {
 	case 0:
 		n = 0
@@ -772,6 +820,20 @@ func main() {
 				{"o0", "p17." + v + ".18433.0"},
 			} {
 				emit(render(c, 4096, sent, w))
+			}
+			// every critical body length of the family: injected (as application data, alert, handshake) in front of
+			// and between the real records, and as a real record shrunk to that length
+			for _, n := range criticalLens(c) {
+				for _, w := range [][]string{
+					{fmt.Sprintf("j17.%s.%d", v, n), "o0", "o1"},
+					{"o0", fmt.Sprintf("j17.%s.%d", v, n), "o1", "o2", "o3"},
+					{"o0", fmt.Sprintf("j15.%s.%d", v, n), "o1"},
+					{"o0", fmt.Sprintf("j16.%s.%d", v, n), "o1"},
+					{"o0", fmt.Sprintf("s1.%d", n), "o2", "o3"},
+					{fmt.Sprintf("s0.%d", n), "o1"},
+				} {
+					emit(render(c, 512, sent, w))
+				}
 			}
 		}
 	}
